@@ -21,6 +21,10 @@ Line-protocol driver for C06 (ledger conservation).
   refund <k> (<addr> <dec>)*k          RefundManager.CheckAndMove over that escrow list
   after <h> <k> (<h_i> <addr> <dec>)*k VMExecutor.after at height h: escrow += entries, then CheckAndMove(h)
   amt <amountHex>                      utility.StrToBigInt alone
+  ft add|sub <slot> <int> | ft get <slot> | ft set <int>      AccountDB.AddFT/SubFT/GetFT/SetFT on one raw slot
+  stk <n>                              Float64ToBigInt(float64(n)), Uint64ToBigInt(n), ParseUint(BigIntToStrWithoutDot(..))
+  ig <create> <hex|->                  executor.IntrinsicGas(data, create) under the current flags
+  sarg <int>                           ParseUint(BigIntToStrWithoutDot(money))
 
 script := "-" | action ("," action)*
 action := c:<addr>:<val> | cc:<addr>:<val> | dc:<addr> | sc:<addr> | cr:<val>:<id> | cr2:<val>:<id> | sd:<addr>
@@ -189,6 +193,74 @@ def showState (ds : DS) : String :=
   "T=" ++ toString (total ds.w.st.bal) ++ " E=" ++ toString (escrowTotal ds.w.st.escrow)
     ++ " S=" ++ toString (regStake ds.w.st.reg) ++ " " ++ " ".intercalate bs
 
+/-! ### the `conv` stream: the real conversions (C18's exact model of them) next to the ledger primitives.
+Every answer ends in `=` when the exact primitive of `Model/Ledger.lean` gives the same result and in `!` when the
+string / float round trip of the code changes it (only beyond 2^509, resp. 2^53 whole tokens:
+`Props/C06Real.lean`). -/
+
+def int? (s : String) : Option Int :=
+  match s.toList with
+  | '-' :: r => (nat? (String.ofList r)).map (fun n => -(n : Int))
+  | _ => (nat? s).map (fun n => (n : Int))
+
+def flag (b : Bool) : String := if b then "=" else "!"
+
+def showRes : Rangers.Decimal.Res → String
+  | .ok v => toString v
+  | .err => "err"
+  | .panic => "panic"
+
+def resIs (r : Rangers.Decimal.Res) (v : Int) : Bool :=
+  match r with
+  | .ok x => x == v
+  | _ => false
+
+def convFt : List String → String
+  | ["add", b, n] =>
+    match nat? b, int? n with
+    | some b, some n =>
+      match Rangers.Decimal.ftAdd 18 b n with
+      | none => "nil"
+      | some v => s!"{v} {flag (v == get (addBal [(0, b)] 0 n) 0)}"
+    | _, _ => "bad-op"
+  | ["sub", b, n] =>
+    match nat? b, int? n with
+    | some b, some n =>
+      match Rangers.Decimal.ftSub 18 b n with
+      | none => "nil"
+      | some (ok, slot, ret) =>
+        let m := subBal [(0, b)] 0 n
+        let exact := ok == m.2 && slot == get m.1 0 && resIs ret (if ok then (b : Int) - n else (b : Int))
+        s!"{if ok then "ok" else "refused"} {slot} {showRes ret} {flag exact}"
+    | _, _ => "bad-op"
+  | ["get", b] =>
+    match nat? b with
+    | some b => let r := Rangers.Decimal.ftGet 18 b; s!"{showRes r} {flag (resIs r (b : Int))}"
+    | none => "bad-op"
+  | ["set", n] =>
+    match int? n with
+    | some n =>
+      match Rangers.Decimal.ftSet 18 n with
+      | none => "nil"
+      | some v => s!"{v} {flag (v == n.natAbs)}"
+    | none => "bad-op"
+  | _ => "bad-op"
+
+/-- `stk n`: the debit of AddStake/AddMiner, the refund of GetRefundStake, and what the stake opcodes read back. -/
+def convStk (n : Nat) : String :=
+  let d := Rangers.Decimal.stakeToBigInt n
+  let r := Rangers.Decimal.uint64ToBigInt n
+  let back := match Rangers.Decimal.stakeArg r with
+    | some k => toString k
+    | none => "none"
+  s!"{showRes d} {r} {back} {flag (resIs d ((toWei n : Nat) : Int) && r == ((toWei n : Nat) : Int))}"
+
+def convSarg (m : Int) : String :=
+  let model : Option Nat := if m < 0 then none else if m.natAbs / wei > uint64Max then none else some (m.natAbs / wei)
+  match Rangers.Decimal.stakeArg m with
+  | some k => s!"{k} {flag (model == some k)}"
+  | none => s!"none {flag (model == none)}"
+
 def step (ds : DS) (line : String) : DS × String :=
   match splitWords line with
   | ["reset"] => (initDS, "ok")
@@ -250,6 +322,24 @@ def step (ds : DS) (line : String) : DS × String :=
   | ["amt", h] =>
     match amount? h with
     | some a => (ds, showAmount a)
+    | none => (ds, "bad-op")
+  | "ft" :: rest => (ds, convFt rest)
+  | ["stk", n] =>
+    match nat? n with
+    | some n => (ds, convStk n)
+    | none => (ds, "bad-op")
+  | ["ig", c, d] =>
+    match bool? c, (if d = "-" then some [] else ofHex? d) with
+    | some c, some bs =>
+      let data := bs.map (fun b => b.toNat)
+      let nz := (data.filter (fun b => b != 0)).length
+      match intrinsicGasOf ds.w.fl c data with
+      | none => (ds, "overflow")
+      | some g => (ds, s!"{g} {flag (g == intrinsicGas ds.w.fl c nz (data.length - nz))}")
+    | _, _ => (ds, "bad-op")
+  | ["sarg", m] =>
+    match int? m with
+    | some m => (ds, convSarg m)
     | none => (ds, "bad-op")
   | _ => (ds, "bad-op")
 
